@@ -34,9 +34,14 @@ func (c09) Rule() string {
 
 func (c09) Gen(r *sim.RNG, tier string, idx int) *Scenario {
 	sc := &Scenario{Prop: "C09"}
-	if idx < gen.ChainCount {
-		sc.World = gen.Chain(idx)
-		sc.Note = fmt.Sprintf("systematic element chain %d", idx)
+	if idx < gen.ChainCount+gen.TwinsCount {
+		if idx < gen.ChainCount {
+			sc.World = gen.Chain(idx)
+			sc.Note = fmt.Sprintf("systematic element chain %d", idx)
+		} else {
+			sc.World = gen.Twins(idx - gen.ChainCount)
+			sc.Note = fmt.Sprintf("twin documents %d", idx-gen.ChainCount)
+		}
 		sc.Opts = Opts{Skip: true, Absolute: r.Bool(0.3)}
 		sc.OrderKeys = OrderKeysFor(r.Uint64(), 2)
 		return sc
@@ -53,6 +58,10 @@ func (c09) Gen(r *sim.RNG, tier string, idx int) *Scenario {
 	cfg.RootElems = true
 	sc.Cfg = &cfg
 	sc.World = gen.Generate(r, cfg)
+	if r.Intn(6) == 0 {
+		sc.World = relocateHTTP(sc.World)
+		sc.Note = "root on http://h.test:8080"
+	}
 	sc.Opts = Opts{Skip: true, Absolute: r.Bool(0.3)}
 	n := 2
 	if tier == "thorough" {
